@@ -24,6 +24,10 @@ impl fmt::Display for TlsVersion {
             TlsVersion::V1_0 => write!(f, "10"),
             TlsVersion::Ssl3_0 => write!(f, "s3"),
             TlsVersion::Ssl2_0 => write!(f, "s2"),
+            // JA4 version table: DTLS 1.0 / 1.2 / 1.3 codes
+            TlsVersion::Unknown(0xfeff) => write!(f, "d1"),
+            TlsVersion::Unknown(0xfefd) => write!(f, "d2"),
+            TlsVersion::Unknown(0xfefc) => write!(f, "d3"),
             TlsVersion::Unknown(_) => write!(f, "00"),
         }
     }
